@@ -340,6 +340,25 @@ def c18_graph_odd():
             (I("d"), M.EX + "p", I("a"))]
 
 
+def c18_graph_multi():
+    """objects that belong to two shapes (a disjunction when OR statements are on), links in both directions, several values"""
+    def I(x):
+        return M.iri(M.EX + x)
+    T = M.RDF_TYPE
+    C, D = I("C"), I("D")
+    return [(I("a"), T, C), (I("b"), T, C), (I("c"), T, C), (I("d"), T, D), (I("e"), T, D), (I("e"), T, C),
+            (I("a"), M.EX + "p", I("d")), (I("a"), M.EX + "p", I("e")), (I("b"), M.EX + "p", I("e")), (I("c"), M.EX + "p", I("a")),
+            (I("d"), M.EX + "p", I("a")), (I("a"), M.EX + "r", M.lit("1", M.XSD_INTEGER)), (I("a"), M.EX + "r", M.lit("2", M.XSD_INTEGER)),
+            (I("b"), M.EX + "r", M.lit("3", M.XSD_INTEGER)), (I("e"), M.EX + "q", M.lit("x"))]
+
+
+# constructor option profiles under which call histories are replayed (the contract does not depend on them)
+PROFILES = {"or": {"disable_or_statements": False}, "or_redundant": {"disable_or_statements": False, "allow_redundant_or": True},
+            "inverse": {"inverse_paths": True}, "strict": {"all_instances_are_compliant_mode": False, "keep_less_specific": False},
+            "noexact": {"disable_exact_cardinality": True, "allow_opt_cardinality": False}, "cap": {"instances_cap": 2},
+            "ratio2": {"decimals": 2, "disable_comments": True}}
+
+
 def big_graph(n_classes=2300):
     T = []
     for i in range(n_classes):
@@ -404,6 +423,7 @@ def _ctor_kwargs(payload, nsdict, who="A"):
         kw["examples_mode"] = C.ALL_EXAMPLES
     if payload.get("miniri"):
         kw["detect_minimal_iri"] = True
+    kw.update(PROFILES.get(payload.get("profile"), {}))
     return kw
 
 
@@ -414,7 +434,7 @@ def _fresh(payload, c, who="A"):
     """what a brand-new Shaper (own pristine dictionary) returns for this call: the Fresh of spec/ShaperApi.tla"""
     from shexer.shaper import Shaper
     key = (payload["gid"], payload.get("examples", False), who in payload.get("turtle", ""), payload.get("shapes_in_dict", False),
-           payload.get("miniri", False), c["kind"], c["fmt"], c["thr"])
+           payload.get("miniri", False), payload.get("profile", ""), c["kind"], c["fmt"], c["thr"])
     if key not in _FRESH:
         sh = Shaper(**_ctor_kwargs(payload, base_dict(payload), who))
         d = tempfile.mkdtemp(prefix="shexer-verif-c18f-")
@@ -495,6 +515,16 @@ def sequences(tier, rnd):
     for sq in rnd.sample(list(itertools.product(range(len(ALPHABET)), repeat=2)), 40):
         out.append({"id": "s%d" % i, "gid": "odd", "nt": ont, "seq": [("A", ALPHABET[j]) for j in sq], "shared": False})
         i += 1
+    # the same histories under other constructor options (disjunctions, inverse paths, ...) on a graph whose objects belong to
+    # two shapes; SHACL has no encoding for disjunctions (KF.C04.shacl_or): ShExC calls only for the OR profiles
+    mnt = M.to_nt(c18_graph_multi())
+    for prof in sorted(PROFILES):
+        letters = [j for j, a in enumerate(ALPHABET) if not (prof.startswith("or") and a["fmt"] == "shacl")]
+        seqs = [(j, j) for j in letters if ALPHABET[j]["kind"] == "shex"] + rnd.sample(list(itertools.product(letters, repeat=2)), 12) + \
+               rnd.sample(list(itertools.product(letters, repeat=3)), 8)
+        for sq in seqs:
+            out.append({"id": "s%d" % i, "gid": "multi", "nt": mnt, "seq": [("A", ALPHABET[j]) for j in sq], "shared": False, "profile": prof})
+            i += 1
     # > 10 000 lines: the serializer flushes its buffer every 5 000 lines
     bnt = M.to_nt(big_graph(2300 if tier == "quick" else 5200))
     for sq in [(0, 3), (3, 0), (3, 3)]:
@@ -550,7 +580,7 @@ def check_c18(out, tier):
 def replay_c18(d):
     out = common.Outcome("C18", "quick")
     s = dict(d["case"]["seq"])
-    s["nt"] = M.to_nt({"small": c18_graph, "odd": c18_graph_odd}.get(s["gid"], big_graph)())
+    s["nt"] = M.to_nt({"small": c18_graph, "odd": c18_graph_odd, "multi": c18_graph_multi}.get(s["gid"], big_graph)())
     s["seq"] = [tuple(x) for x in s["seq"]]
     r_ = _run_sequence(s)
     t = {"id": s["id"], "events": [{"kind": e["kind"], "fmt": e["fmt"], "sink": e["sink"], "thr": e["thr"], "shaper": e["shaper"],
